@@ -101,7 +101,7 @@ static int pipes[NPIPE][2];
 static const char *mode;
 static int in_callback_depth;
 static vh_rng *R;
-static long nobs_in_loop;
+static long nobs_in_loop, obs_cap = 300;
 static int verbose;
 static struct event_callback dcb[NDEF];
 static long stat_cb, stat_timer_fired, stat_cancel_before_deadline, stat_persist_rearm, stat_common_fired,
@@ -541,6 +541,8 @@ static void compare_state(const char *where)
 
 /* ------------------------------------------------------------------ observations */
 static void gen_ops(int n_max, int in_cb);
+static int enum_mode, enum_variant;
+static void enum_callback_action(int s);
 
 static int64_t backend_timeout(int64_t us)
 {
@@ -621,7 +623,7 @@ static void on_wait(int kind, int64_t timeout_us, void *a, void *b, void *c, int
 	}
 	compare_state("at-wait");
 	M.phase = PH_AFTERWAIT;
-	if (++nobs_in_loop > 300) forced_break();
+	if (++nobs_in_loop > obs_cap) forced_break();
 }
 static void on_forever(void)
 {
@@ -655,10 +657,11 @@ static void user_callback_common(int s, short res)
 	}
 	compare_state("callback-entry");
 	in_callback_depth++;
-	if (!M.lost && vh_chance(R, 2, 3)) gen_ops(3, 1);
+	if (enum_mode) enum_callback_action(s);
+	else if (!M.lost && vh_chance(R, 2, 3)) gen_ops(3, 1);
 	in_callback_depth--;
 	compare_state("callback-exit");
-	if (++nobs_in_loop > 300) forced_break();
+	if (++nobs_in_loop > obs_cap) forced_break();
 }
 static void ev_cb(evutil_socket_t fd, short res, void *arg) { (void)fd; user_callback_common((int)(intptr_t)arg, res); }
 static void defer_cb(struct event_callback *cb, void *arg) { (void)cb; user_callback_common((int)(intptr_t)arg, 0); }
@@ -686,7 +689,7 @@ static void watcher_common(int id, int check, const struct evwatch_prepare_cb_in
 	/* advance like TAILQ_FOREACH (self-freed watchers are excluded by the generator unless enabled) */
 	M.witer = wnext_after(id, check);
 	/* watchers created during this pass: visiting them is optional -> skip them in the expectation only if not live; handled in gen */
-	if (++nobs_in_loop > 300) forced_break();
+	if (++nobs_in_loop > obs_cap) forced_break();
 }
 static void prep_cb(struct evwatch *w, const struct evwatch_prepare_cb_info *info, void *arg) { (void)w; watcher_common((int)(intptr_t)arg, 0, info); }
 static void check_cb(struct evwatch *w, const struct evwatch_check_cb_info *info, void *arg) { (void)w; (void)info; watcher_common((int)(intptr_t)arg, 1, NULL); }
@@ -929,11 +932,109 @@ static void gen_ops(int n_max, int in_cb)
 	}
 }
 
+
+/* ------------------------------------------------------------------ bounded-exhaustive mode (C02 thorough)
+ * case index -> (variant, length<=5, ops from a 16-letter alphabet) on a fixed pool:
+ *   e0 one-shot timer, e1 persistent read event on pipe 0 (1 byte pending), e2 signal event (SIGUSR1). */
+#define ENUM_ALPHA 16
+#define ENUM_MAXLEN 5
+static void run_loop_flags(int flags);
+static void eop_add(int s, int64_t d)
+{
+	struct timeval tv; tv.tv_sec = d / 1000000; tv.tv_usec = d % 1000000;
+	if (event_add(M.e[s].ev, d >= 0 ? &tv : NULL) != 0) { viol("C02:event-add-failed", "enum: event_add(%d) failed", s); return; }
+	m_add(&M.e[s], d, -1);
+}
+static void eop(int code)
+{
+	switch (code) {
+	case 0: eop_add(0, 1000); break;
+	case 1: eop_add(0, 0); break;
+	case 2: event_del(M.e[0].ev); m_del(&M.e[0]); break;
+	case 3: event_active(M.e[0].ev, EV_READ, 1); m_active(&M.e[0], EV_READ, 1, 0); break;
+	case 4: eop_add(1, -1); break;
+	case 5: eop_add(1, 1000); break;
+	case 6: event_del(M.e[1].ev); m_del(&M.e[1]); break;
+	case 7: event_remove_timer(M.e[1].ev); m_remove_timer(&M.e[1]); break;
+	case 8: event_active_later_(M.e[1].ev, EV_WRITE); m_active_later(&M.e[1], EV_WRITE); break;
+	case 9: eop_add(2, -1); break;
+	case 10: if (M.sig_slot != 2) { event_active(M.e[2].ev, EV_SIGNAL, 2); m_active(&M.e[2], EV_SIGNAL, 2, 0); } break;
+	case 11: event_del(M.e[2].ev); m_del(&M.e[2]); break;
+	case 12: if (!M.in_loop) run_loop_flags(EVLOOP_NONBLOCK); break;
+	case 13: vclk_advance(1000); break;
+	case 14: if (!M.in_loop) run_loop_flags(EVLOOP_ONCE); break;
+	case 15: { int want = (M.e[0].fl & F_ACT) ? -1 : 0; int r = event_priority_set(M.e[0].ev, 0);
+		if (r != want) viol("C02:priority-set-result", "enum: priority_set=%d want %d", r, want); else if (!r) M.e[0].pri = 0; break; }
+	}
+	if (!M.lost) compare_state("after-op");
+}
+static void enum_callback_action(int s)
+{
+	char c;
+	if (M.lost) return;
+	switch (enum_variant) {
+	case 1: if (s == 1 && M.pipe_bytes[0] > 0 && __real_read(pipes[0][0], &c, 1) == 1) M.pipe_bytes[0]--; break;
+	case 2: if (s == 0) eop_add(0, 1000); break;
+	case 3: if (s == 1) { event_del(M.e[1].ev); m_del(&M.e[1]); } else if (s == 2) { event_del(M.e[2].ev); m_del(&M.e[2]); } break;
+	case 4: if (s == 0) { event_active(M.e[1].ev, EV_TIMEOUT, 1); m_active(&M.e[1], EV_TIMEOUT, 1, 0); } break;
+	default: break;
+	}
+}
+static void new_fixed(int s, int kind, int persist, int fd, short evs)
+{
+	struct mev *e = &M.e[s];
+	memset(e, 0, sizeof(*e));
+	e->ev = event_new(base, fd, evs, ev_cb, (void *)(intptr_t)s);
+	e->kind = kind; e->persist = persist; e->pipe = 0; e->pri = M.npri / 2; e->common = e->icommon = -1;
+}
+static void run_case_enum(vh_rng *r, long idx)
+{
+	long code = idx;
+	int ops[ENUM_MAXLEN], len = 0, i;
+	char c = 'x';
+	char desc[128]; int o = 0;
+	R = r;
+	enum_variant = (int)(code % 5); code /= 5;
+	/* length-prefixed enumeration: idx -> sequence in shortlex order */
+	{
+		long span = ENUM_ALPHA; len = 1;
+		while (code >= span && len < ENUM_MAXLEN) { code -= span; span *= ENUM_ALPHA; len++; }
+		if (code >= span) { vh_stat("enum_out_of_range"); return; }
+		for (i = len - 1; i >= 0; i--) { ops[i] = (int)(code % ENUM_ALPHA); code /= ENUM_ALPHA; }
+	}
+	memset(&M, 0, sizeof(M));
+	M.running_pri = -1; M.sig_slot = -1; M.maxd_time = -1; M.maxd_cb = INT_MAX; M.wpass = 1;
+	for (i = 0; i < NSLOT; i++) M.e[i].common = M.e[i].icommon = -1;
+	vclk_enable(1000LL * 1000000); vclk_oversleep_us = 0;
+	base = event_base_new();
+	if (!base) return;
+	M.npri = 2; event_base_priority_init(base, 2);
+	for (i = 0; i < NPIPE; i++) if (pipe2(pipes[i], O_NONBLOCK | O_CLOEXEC) < 0) exit(2);
+	if (__real_write(pipes[0][1], &c, 1) == 1) M.pipe_bytes[0] = 1;
+	new_fixed(0, K_TIMER, 0, -1, 0);
+	new_fixed(1, K_READ, 1, pipes[0][0], EV_READ | EV_PERSIST);
+	new_fixed(2, K_SIGNAL, 1, SIGUSR1, EV_SIGNAL | EV_PERSIST);
+	vclk_wait_hook = on_wait; vclk_forever_hook = on_forever;
+	for (i = 0; i < len && !M.lost; i++) { o += snprintf(desc + o, sizeof(desc) - o, "%d ", ops[i]); eop(ops[i]); }
+	if (!M.lost) run_loop_flags(EVLOOP_NONBLOCK);
+	vclk_wait_hook = NULL; vclk_forever_hook = NULL;
+	for (i = 0; i < 3; i++) if (M.e[i].ev) event_free(M.e[i].ev);
+	event_base_free(base); base = NULL;
+	for (i = 0; i < NPIPE; i++) { close(pipes[i][0]); close(pipes[i][1]); }
+	vh_stat("cases"); vh_stat("enum_sequences");
+	if (!M.lost) { uint64_t h = vh_hash_bytes(7, ops, sizeof(int) * len); h = vh_hash_bytes(h, &enum_variant, sizeof(int)); vh_distinct(h); }
+	vh_sample(2, "{\"mode\":\"enum\",\"variant\":%d,\"ops\":\"%s\"}", enum_variant, desc);
+}
+
 static void run_loop(void)
 {
 	static const int fl[] = {EVLOOP_NONBLOCK, EVLOOP_NONBLOCK, EVLOOP_ONCE, EVLOOP_ONCE, 0, EVLOOP_NO_EXIT_ON_EMPTY,
 		EVLOOP_ONCE | EVLOOP_NONBLOCK, EVLOOP_ONCE | EVLOOP_NO_EXIT_ON_EMPTY};
-	int flags = VH_PICK(R, fl), r;
+	run_loop_flags(VH_PICK(R, fl));
+}
+static void run_loop_flags(int flags)
+{
+	int r;
 	M.flags_loop = flags; M.in_loop = 1; M.done = 0; M.phase = PH_TOP;
 	M.cache = 0; M.gotterm = 0; M.brk = 0;         /* loop entry clears the cache and both flags */
 	M.running_pri = -1; M.sig_slot = -1;
@@ -1042,7 +1143,9 @@ int main(int argc, char **argv)
 	mode = vh_opt.mode ? vh_opt.mode : "state";
 	verbose = vh_opt.verbose;
 	{ struct sigaction sa; memset(&sa, 0, sizeof(sa)); sa.sa_handler = SIG_IGN; sigaction(SIGUSR1, &sa, NULL); sigaction(SIGUSR2, &sa, NULL); }
-	while (vh_next_case(&idx, &r)) run_case(&r);
+	enum_mode = !strcmp(mode, "enum");
+	if (enum_mode) obs_cap = 40;
+	while (vh_next_case(&idx, &r)) { if (enum_mode) run_case_enum(&r, idx); else run_case(&r); }
 	vh_stat_add("callbacks", stat_cb); vh_stat_add("timers_fired", stat_timer_fired);
 	vh_stat_add("cancel_or_readd_before_deadline", stat_cancel_before_deadline);
 	vh_stat_add("persist_rearms", stat_persist_rearm); vh_stat_add("common_timeout_fired", stat_common_fired);
